@@ -14,3 +14,52 @@ def std_gate_spec():
         names = []
     return ('/// a gate name of the standard library (generated from SymbolTable::standard_library_gates)\n'
             'pub open spec fn std_gate(n: Seq<char>) -> bool { %s }\n' % (' || '.join('n == "%s"@' % n_ for n_ in names) or 'false'))
+
+
+# the standard gate library of OpenQASM 3 (stdgates.inc) and the OpenQASM 2 gates the implementation adds, with the number of
+# angle parameters and of qubits of each -- written from the language documents, not from the code
+STD_ARITY = {'p': (1, 1), 'x': (0, 1), 'y': (0, 1), 'z': (0, 1), 'h': (0, 1), 's': (0, 1), 'sdg': (0, 1), 't': (0, 1), 'tdg': (0, 1), 'sx': (0, 1),
+             'rx': (1, 1), 'ry': (1, 1), 'rz': (1, 1), 'cx': (0, 2), 'cy': (0, 2), 'cz': (0, 2), 'cp': (1, 2), 'crx': (1, 2), 'cry': (1, 2), 'crz': (1, 2),
+             'ch': (0, 2), 'swap': (0, 2), 'ccx': (0, 3), 'cswap': (0, 3), 'cu': (4, 2),
+             'CX': (0, 2), 'phase': (1, 1), 'cphase': (1, 2), 'id': (0, 1), 'u1': (1, 1), 'u2': (2, 1), 'u3': (3, 1)}
+
+
+def std_gate_rows():
+    """the rows `(vec![names..], [n_angles, n_qubits])` of SymbolTable::standard_library_gates, read from /repo: [(name, n_cl, n_qu)]"""
+    rf = RustFile(os.path.join(REPO, 'crates/oq3_semantics/src/symbols.rs'))
+    try:
+        it = rf.find_fn('standard_library_gates', None, 1)
+    except KeyError:
+        return None
+    text = rf.src[it['header_start']:it['end']]
+    text = re.sub(r'/\*.*?\*/', '', text, flags=re.S)
+    rows = []
+    for m in re.finditer(r'\(\s*vec!\[([^\]]*)\]\s*,\s*\[\s*(\d+)\s*,\s*(\d+)\s*\]\s*,?\s*\)', text):
+        for nm in re.findall(r'"(\w+)"', m.group(1)):
+            rows.append((nm, int(m.group(2)), int(m.group(3))))
+    return rows
+
+
+def std_gate_arity_obligations():
+    """Verus text: the arity table of the language as a spec function, and one assertion per row of the table in /repo"""
+    rows = std_gate_rows()
+    chain = ' else '.join('if n == "%s"@ { Some((%dnat, %dnat)) }' % (k, a, q) for k, (a, q) in STD_ARITY.items()) + ' else { None }'
+    out = ['/// the gates of the standard library with (number of angle parameters, number of qubits): stdgates.inc of OpenQASM 3 and the',
+           '/// OpenQASM 2 gates the implementation adds (written from the language documents)',
+           'pub open spec fn std_gate_arity(n: Seq<char>) -> Option<(nat, nat)> { %s }' % chain,
+           '/// one obligation per row `(names, [angles, qubits])` of SymbolTable::standard_library_gates, generated from the text of /repo on this run',
+           'proof fn std_gate_table_rows() {']
+    names = sorted(set(list(STD_ARITY) + [r[0] for r in (rows or [])]))
+    for n in names:
+        out.append('    reveal_strlit("%s"); assert(%s);' % (n, ' && '.join(['"%s"@.len() == %d' % (n, len(n))] + ['"%s"@[%d] == \'%s\'' % (n, i_, c_) for i_, c_ in enumerate(n)])))
+    if rows is None:
+        out.append('    assert(false);      //@C09:std-gate-table-found')
+    else:
+        for nm, a, q in rows:
+            out.append('    assert(std_gate_arity("%s"@) == Some((%dnat, %dnat)));      //@C09,C13:std-gate-has-the-arity-of-the-library' % (nm, a, q))
+        seen = set(r[0] for r in rows)
+        for k in STD_ARITY:
+            out.append('    assert(%s);      //@C09,C13:std-gate-is-in-the-table   (%s)' % ('true' if k in seen else 'false', k))
+        out.append('    assert(%d == %d);      //@C09:no-gate-twice-in-the-table' % (len(rows), len(seen)))
+    out.append('}')
+    return '\n'.join(out) + '\n'
